@@ -1,7 +1,7 @@
 (** C15 — property theorems only.  Each is closed by [exact] of a lemma in Proofs*.v and followed by
     [Print Assumptions]. *)
 From Coq Require Import Sorting.Permutation.
-From V Require Import Base.Util Gql.Ast C15.Model C15.Spec C15.Proofs1 C15.Proofs2 C15.Proofs3 C15.Proofs4 C15.Proofs5 C15.Proofs C15.Reify C15.CheckBridge C15.CheckSim C15.CheckSim2 C15.CheckRespects C15.CheckExamples C15.EmitSim C15.EmitExamples C15.Corr C15.CorrProofs.
+From V Require Import Base.Util Gql.Ast C15.Model C15.Spec C15.Proofs1 C15.Proofs2 C15.Proofs3 C15.Proofs4 C15.Proofs5 C15.Proofs C15.Reify C15.CheckBridge C15.CheckSim C15.CheckSim2 C15.CheckRespects C15.CheckExamples C15.EmitSim C15.EmitIface C15.EmitDen C15.EmitExamples C15.Corr C15.CorrProofs.
 
 (** For every schema model M satisfying the guard, every key style and with or without the introspection types in
     the result: the JSON route accepts the standard introspection result of M, and the Schema it builds is
@@ -192,6 +192,71 @@ Theorem C15_emit_respects_equiv : forall st meta M Dsdl,
         res_shape (V.C10.Model.type_member (V.C10.Model.make_ctx o DA tg) tA) = res_shape (V.C10.Model.type_member (V.C10.Model.make_ctx o Dsdl tg) tD).
 Proof. exact emit_respects_equiv. Qed.
 Print Assumptions C15_emit_respects_equiv.
+
+(** ... and for interfaces.  An interface is printed as the union of its implementers in the iteration order of the
+    document's type table, which differs between the routes; the declarations have the same outcome, the same local alias
+    and are unions over the SAME SET of members ([iface_rel]).  Uses the characterisation of C10's iter_types
+    (x_in_iter_types) and the computable guard that object types outside the compared names implement nothing. *)
+Theorem C15_emit_respects_equiv_interface : forall st meta M Dsdl,
+  model_ok M = true -> doc_equiv Dsdl (sdl_doc M) -> parsed_positions Dsdl ->
+  exists Sj, json_route (introspect st meta M) = Ok Sj /\
+    let DA := type_system_to_ast Sj in
+    forall o tg,
+      bag_equiv_b (V.C10.Model.c_bag (V.C10.Model.make_ctx o DA tg)) (V.C10.Model.c_bag (V.C10.Model.make_ctx o Dsdl tg)) = true ->
+      objects_outside_b (vis_of M) DA = true -> objects_outside_b (vis_of M) Dsdl = true ->
+      forall n d1 p1 n1 i1 ds1 f1 k1 d2 p2 n2 i2 ds2 f2 k2, vis_of M n = true ->
+        V.C10.Model.get_type DA n = Some (TDInterface d1 p1 n1 i1 ds1 f1 k1) ->
+        V.C10.Model.get_type Dsdl n = Some (TDInterface d2 p2 n2 i2 ds2 f2 k2) ->
+        iface_rel (V.C10.Model.type_member (V.C10.Model.make_ctx o DA tg) (TDInterface d1 p1 n1 i1 ds1 f1 k1))
+                  (V.C10.Model.type_member (V.C10.Model.make_ctx o Dsdl tg) (TDInterface d2 p2 n2 i2 ds2 f2 k2)).
+Proof. exact emit_respects_equiv_interface. Qed.
+Print Assumptions C15_emit_respects_equiv_interface.
+
+(** emit_respects_equiv at the level of denotations, by builder-C10's theorem C10_alias_exact_iff (used twice, once per
+    document; its guards are [wf_schema o doc] and [schema_decls o doc = Ok nss], [applicable doc t T], and the alias being
+    exported) and the lookup-only lemma for C10's reference denotation (ref_respects_lookups in EmitDen.v): under the
+    hypotheses of C15_routes_agree, the alias the schema declaration exports for a compared type T in the namespace of
+    target t admits exactly the same values on the JSON route (printing type_system_to_ast of its Schema) and on the SDL
+    route — all six kinds, interfaces included, all four namespaces.  [wf_schema o DA] excludes type names starting with
+    `__`, i.e. an introspection result that lists the introspection types (known finding). *)
+Theorem C15_alias_denotations_agree : forall st meta M Dsdl,
+  model_ok M = true -> doc_equiv Dsdl (sdl_doc M) -> parsed_positions Dsdl ->
+  exists Sj, json_route (introspect st meta M) = Ok Sj /\
+    let DA := type_system_to_ast Sj in
+    forall o t nssA nssD T bodyA bodyD,
+      V.C10.Spec.wf_schema o DA = true -> V.C10.Spec.wf_schema o Dsdl = true ->
+      V.C10.Model.schema_decls o DA = V.C10.Model.Ok nssA -> V.C10.Model.schema_decls o Dsdl = V.C10.Model.Ok nssD ->
+      doc_emit_closed_b (vis_of M) DA = true ->
+      objects_outside_b (vis_of M) DA = true -> objects_outside_b (vis_of M) Dsdl = true ->
+      vis_of M T = true -> V.C10.Spec.applicable DA t T = true ->
+      V.C10.Spec.alias_of (V.C10.Spec.namespace_of nssA t) T = Some bodyA ->
+      V.C10.Spec.alias_of (V.C10.Spec.namespace_of nssD t) T = Some bodyD ->
+      forall v,
+        (Ts.TsDen.In_type (V.C10.Spec.ns_env (V.C10.Spec.namespace_of nssA t)) bodyA v <->
+         Ts.TsDen.In_type (V.C10.Spec.ns_env (V.C10.Spec.namespace_of nssD t)) bodyD v)
+        /\ (Ts.TsDen.NotIn_type (V.C10.Spec.ns_env (V.C10.Spec.namespace_of nssA t)) bodyA v <->
+            Ts.TsDen.NotIn_type (V.C10.Spec.ns_env (V.C10.Spec.namespace_of nssD t)) bodyD v).
+Proof. exact alias_denotations_agree. Qed.
+Print Assumptions C15_alias_denotations_agree.
+
+(** ... established for every generated case whose introspection result does not list the introspection types and on which
+    the model reproduces the implementation ([agree] evaluates the guards of C15_alias_denotations_agree with [guard_opts]). *)
+Theorem C15_certified_alias_denotations : forall st M D J out_sdl out_json docs,
+  agree (CRoutes false true st false [] M D J out_sdl out_json docs) = true ->
+  exists Sj, out_json = Ok Sj /\
+    forall t nssA nssD T bodyA bodyD,
+      V.C10.Model.schema_decls guard_opts (type_system_to_ast Sj) = V.C10.Model.Ok nssA ->
+      V.C10.Model.schema_decls guard_opts D = V.C10.Model.Ok nssD ->
+      vis_of M T = true -> V.C10.Spec.applicable (type_system_to_ast Sj) t T = true ->
+      V.C10.Spec.alias_of (V.C10.Spec.namespace_of nssA t) T = Some bodyA ->
+      V.C10.Spec.alias_of (V.C10.Spec.namespace_of nssD t) T = Some bodyD ->
+      forall v,
+        (Ts.TsDen.In_type (V.C10.Spec.ns_env (V.C10.Spec.namespace_of nssA t)) bodyA v <->
+         Ts.TsDen.In_type (V.C10.Spec.ns_env (V.C10.Spec.namespace_of nssD t)) bodyD v)
+        /\ (Ts.TsDen.NotIn_type (V.C10.Spec.ns_env (V.C10.Spec.namespace_of nssA t)) bodyA v <->
+            Ts.TsDen.NotIn_type (V.C10.Spec.ns_env (V.C10.Spec.namespace_of nssD t)) bodyD v).
+Proof. exact certified_alias_denotations. Qed.
+Print Assumptions C15_certified_alias_denotations.
 
 (** The boolean comparison the correspondence run evaluates on the implementation's two Schema values
     (Corr.holds on a CRoutes case) implies the equivalence stated above. *)
